@@ -1,0 +1,10 @@
+//go:build verif
+
+package inode
+
+// VerifBlks returns the inode's block-pointer array (for the verification
+// harness, see /verif/DESIGN.md, Section 6).
+func (ip *Inode) VerifBlks() []uint64 { return ip.blks }
+
+// VerifSetBlks sets the block-pointer array of an inode built by the harness.
+func (ip *Inode) VerifSetBlks(b []uint64) { ip.blks = b }
